@@ -138,6 +138,12 @@ CHECKS = {
         design_ref="DESIGN.md section 4 C03",
         note="Trusted: Coq kernel (no axioms), tools/onnx2coq.py + Onnx.v flattening (sanity-checked per model by table_ok), the GenNames extractor (validated each run against the real IRContext/IRBuilder on 100/1000 random call trees). onnx.checker(full), strict shape inference and onnxruntime are cross-checks: 51 hand-made probes show wf_model accepts exactly when checker and ORT do (3 documented conservative rejections). The programs quantifier is SAMPLED (quick ~320 / thorough ~2270 models; one-off sweep of all 3137 registry exports): the theorem is per validated model, not for every program. Side conditions of the naming theorems are evaluated on the 1718 literal bases of /repo: the cross-family condition fails for 'Constant' and 'v' (reported in coverage, not a violation; exports are additionally protected by onnx_ir's NameFixPass). ORT limits not held against exports: opset 27 unsupported, no CPU double kernels for Conv/Asin/AveragePool/QuickGelu. Known findings: CumProd/BitCast at opset 23 (C11), reduce_sum_dtype_f64 and random_bits_uint32_f64 ill-typed under double precision, TensorScatter(mode='none').",
         technique="Rocq: boolean validator with soundness + lookup-safety meta-theorem run by vm_compute on real exports; naming proofs over auto-extracted string builders; differential ties; external tool cross-checks"),
+    "C08": dict(
+        category="proof",
+        text="Proofs about the annotation helpers + a proved checker run on real exports (translation validation per export). The helpers _dim_token, _broadcast_shape_dims, _dim_is_known, _normalize_dim, _unknown_shape_like are translated from the current source on every run; Coq proves (full strength, any number of operands, every binding of the symbols) that the merged broadcast annotation never contradicts the numpy/ONNX broadcast of the run-time shapes, and that post-processing maps every dim to itself or unknown and leaves graph inputs/outputs untouched. The soundness of _refresh_elementwise_output_shape is refuted for the pre-repair pass (one-element constants of any rank were skipped: Add(x:[3], c:[1,1]) re-annotated [3]), proved under the exact rank hypothesis (shown necessary) and at full strength for the repaired pass; the harness probes which model is in force. Every annotated value of a spread of real exports (top-level graph, function bodies stand-alone, Loop bodies at depth 1) is observed in onnxruntime on several bindings of the symbolic dims: dtype, rank, every declared concrete dim and every declared symbol are compared; annot_consistent (proved sound) runs inside Coq on the converted exports; the real postprocess_ir_model is wrapped to compare all annotations before/after.",
+        design_ref="DESIGN.md section 4 C08",
+        note="Trusted: Coq kernel (no axioms); the dedicated extractor tools/units/c08_units.py (generic control flow + per-function expression table, fails closed) and its PRELUDE, validated each run against the running Python on every dim-kind pair of shapes up to rank 2, rank-1 triples and random rank<=3 tuples; hand models refresh/loosen/is_scalar_const tied differentially on small onnx_ir graphs; onnx2coq; onnxruntime 1.30 CPU as run-time reference; the transcription of the ONNX shape rules in Annot.rule_on. The programs quantifier is SAMPLED for the per-export part. Not observed at run time: If/Scan bodies and nesting deeper than one Loop; the dtype side of _copy_shape_dtype/_maybe_promote_value_to_double is validated at run time only. Known findings: JAX2ONNX_DYNAMIC_DIM_SENTINEL used as one dim_param for different data-dependent extents, explicit float32 cast under enable_double_precision (output declared DOUBLE, computed FLOAT). Full-registry scan (3169 exports, 62k values) found nothing else.",
+        technique="Rocq proofs over auto-translated annotation helpers (dedicated AST->Gallina extractor) + proved boolean checker run by vm_compute on real exports + onnxruntime observation of every annotated value under several symbol bindings + before/after snapshots of the real post-processing"),
 }
 
 NOT_YET = {}
